@@ -85,6 +85,21 @@ func bridgeFacts(terms []*Term) []*Term {
 				add(Implies(Gt(nb, IntLit(0)), And(Lt(nx, nb), Le(nx, BV2Int(x.Args[0])))))
 			}
 		case "bvmul":
+			if _, l0 := lit(x.Args[0]); !l0 {
+				if _, l1 := lit(x.Args[1]); !l1 {
+					want(x.Args[0])
+					want(x.Args[1])
+					p := Mul(BV2Int(x.Args[0]), BV2Int(x.Args[1]))
+					add(Implies(Lt(p, IntBig(pow2(w))), Eq(nx, p)))
+					add(Le(IntLit(0), p))
+					if w%2 == 0 {
+						// half-width operands cannot overflow: (2^(w/2)-1)^2 < 2^w
+						h := IntBig(pow2(w / 2))
+						m := new(big.Int).Sub(pow2(w/2), big.NewInt(1))
+						add(Implies(And(Lt(BV2Int(x.Args[0]), h), Lt(BV2Int(x.Args[1]), h)), Le(p, IntBig(new(big.Int).Mul(m, m)))))
+					}
+				}
+			}
 			for i := 0; i < 2; i++ {
 				if c, ok := lit(x.Args[i]); ok {
 					a := x.Args[1-i]
